@@ -149,6 +149,27 @@ func c08Values() []extVal {
 			g.EncapsulatedKey = rep(0x77, 32)
 			return g
 		}),
+		// captured GREASE ECH extensions with other key / payload sizes: regenerated at the same sizes
+		E("grease_ech:enc65", "ech", func() tls.TLSExtension {
+			g := tls.BoringGREASEECH()
+			g.CandidatePayloadLens = []uint16{128}
+			g.EncapsulatedKey = rep(0x65, 65)
+			return g
+		}),
+		E("grease_ech:enc97-payload1", "ech", func() tls.TLSExtension {
+			g := tls.BoringGREASEECH()
+			g.CandidatePayloadLens = []uint16{1}
+			g.CandidateConfigIds = []uint8{0}
+			g.EncapsulatedKey = rep(0x97, 97)
+			return g
+		}),
+		E("grease_ech:enc133-payload300", "ech", func() tls.TLSExtension {
+			g := tls.BoringGREASEECH()
+			g.CandidatePayloadLens = []uint16{300}
+			g.CandidateConfigIds = []uint8{255}
+			g.EncapsulatedKey = rep(0x33, 133)
+			return g
+		}),
 		E("session_ticket:empty", "typeonly", func() tls.TLSExtension { return &tls.SessionTicketExtension{} }),
 		E("session_ticket:100", "typeonly", func() tls.TLSExtension {
 			return &tls.SessionTicketExtension{Ticket: rep(0x99, 100), Initialized: true}
